@@ -186,6 +186,16 @@ theorem onRepr_ap (other : Handle) (m : M ρ α) (s : St) :
       | .pidx s' => .pidx { s' with self := s.self }
       | .ub u => .ub u := by cases s; rfl
 
+theorem arith_add_ap (a b : Nat) (s : St) : (arith_add a b : M ρ Nat) s = if a + b < USIZE then .next (a + b) s else .ub .arith := by
+  cases s; rfl
+theorem arith_sub_ap (a b : Nat) (s : St) : (arith_sub a b : M ρ Nat) s = if b ≤ a then .next (a - b) s else .ub .arith := by
+  cases s; rfl
+theorem arith_mul_ap (a b : Nat) (s : St) : (arith_mul a b : M ρ Nat) s = if a * b < USIZE then .next (a * b) s else .ub .arith := by
+  cases s; rfl
+theorem arith_div_ap (a b : Nat) (s : St) : (arith_div a b : M ρ Nat) s = if 0 < b then .next (a / b) s else .ub .arith := by
+  cases s; rfl
+theorem cast_to_ap (bits x : Nat) (s : St) : (cast_to bits x : M ρ Nat) s = .next (x % 2 ^ bits) s := by cases s; rfl
+
 theorem isHeap_heap (a l : Nat) : isHeap (.heap a l) = true := by simp only [isHeap]
 theorem isHeap_inl (raw : Bytes) : isHeap (.inl raw) = false := by simp only [isHeap]
 theorem isHeap_stat (i l : Nat) : isHeap (.stat i l) = false := by simp only [isHeap]
@@ -275,7 +285,7 @@ macro_rules
       read_self_ap, as_heap_ap, as_heap_mut_ap, as_static_ap, as_static_mut_ap, as_inline_mut_ap,
       hr_is_len_on_heap_ap, hr_realloc_ap, hr_set_len_ap, fence_ap, sr_len_ap, sr_set_len_ap, ir_set_len_ap,
       field_0_ap, overflow_ap, isHeap_heap, isHeap_inl, isHeap_stat, isStatic_heap, isStatic_inl, isStatic_stat,
-      max_inline_size_eq, lean_string_ctor_ap, onRepr_ap, array_repeat_ap, encode_utf8_ap, sstr_len_ap, static_new_ap, as_slice_mut_inl, as_slice_mut_stat, as_str_mut_inl, as_str_mut_stat, index_range_ap, index_from_ap,
+      max_inline_size_eq, arith_add_ap, arith_sub_ap, arith_mul_ap, arith_div_ap, cast_to_ap, lean_string_ctor_ap, onRepr_ap, array_repeat_ap, encode_utf8_ap, sstr_len_ap, static_new_ap, as_slice_mut_inl, as_slice_mut_stat, as_str_mut_inl, as_str_mut_stat, index_range_ap, index_from_ap,
       sl_len_ap, sl_as_mut_ptr_ap, ptr_add_ap, str_as_bytes_ap, str_as_ptr_ap, writeSelf_ap, copy_from_slice_ap, ptr_copy_ap,
       ptr_copy_nonoverlapping_ap, sl_chars_ap, str_chars_ap, chars_next_ap, chars_next_back_ap, unwrap_some, unwrap_none, len_utf8_ap,
       decide_true, decide_false, Bool.not_true, Bool.not_false, Bool.false_eq_true, ↓reduceIte])
